@@ -584,6 +584,15 @@ def order_port_mutations(max_steps=14):
     return st.lists(weighted(*alts), min_size=4, max_size=max_steps)
 
 
+def burst_mutations():
+    """Siblings added under the root, several of them deleted, as many added again (freed indices are reused
+    most recent first, so the child order ends far from index order), then a few links."""
+    add0 = st.tuples(st.just("add_node"), st.sampled_from(OP_POOL), st.just(0), st.one_of(st.none(), st.integers(0, 3)), META).map(list)
+    dele = st.tuples(st.just("delete_node"), SEL).map(list)
+    link = st.one_of(st.tuples(st.just("add_link"), SEL, OFF, SEL, OFF).map(list), st.tuples(st.just("add_order_link"), SEL, SEL).map(list))
+    return st.tuples(st.lists(add0, min_size=4, max_size=8), st.lists(dele, min_size=2, max_size=5), st.lists(add0, min_size=2, max_size=5), st.lists(link, max_size=4)).map(lambda t: t[0] + t[1] + t[2] + t[3])
+
+
 def holes_mutations():
     """Additions and links, then deletions only (several indices free at once, freed in any order, live
     nodes and link ends above and between them), then at most two additions."""
